@@ -981,6 +981,25 @@ def c12(tr, cx):
             tr.count('C12.interruptions')
             if not sv['preempt']: tr.v('C12', 'interrupted_in_nonpreemptive_schedule', e)
             if not timetable(sv, float(e[1]))[2]: tr.v('C12', 'interrupt_not_at_shift_end', e)
+    # every boundary of the declared timetable is a shift change - also one between two shifts of equal size (the old servers
+    # leave, fresh ones come on duty; under pre-emption the services in progress are interrupted there)
+    if tr.snaps:
+        t_last = float(tr.snaps[-1]['t'])
+        for nid in range(1, spec['n'] + 1):
+            cls, kind = nk(spec, nid)
+            if kind != 'schedule' or cls != 'Node': continue
+            sv = spec['nodes'][nid - 1]['servers']
+            got = [float(e[1]) for e in tr.events if e[0] == 'shift' and e[2] == nid]
+            exp = [sv['offset']] if sv['offset'] > 0 else []
+            m = 0
+            while len(exp) < 5000:
+                bs = [sv['offset'] + b + m * sv['ends'][-1] for b in sv['ends']]
+                exp += bs; m += 1
+                if bs[-1] >= t_last: break
+            exp = [b for b in exp if b < t_last - 1e-9]
+            tr.count('C12.timetable_boundaries', len(exp))
+            missing = [b for b in exp if not any(abs(b - g) < 1e-9 for g in got)]
+            if missing: tr.v('C12', 'timetable_boundary_without_shift_change', (nid, missing[:4], len(exp)))
     # pre-emptive schedules: every customer in service at a shift end is interrupted (or rerouted) at that instant
     for gi, (E, inner) in enumerate(groups_of(tr)):
         if E[3] != 'shift_change': continue
